@@ -236,6 +236,8 @@ func runScript(rq interface{}, sc script, env *scriptEnv) {
 			case "reserr-nil":
 				var e *res.Error
 				panic(e)
+			case "untyped-nil":
+				panic(nil)
 			}
 		case "meta":
 			switch a.K {
@@ -460,7 +462,7 @@ func otherAlphabet(rtype string) []act {
 		{Op: "event", K: "create", V: "ok"}, {Op: "event", K: "delete"}, {Op: "event", K: "reaccess"}, {Op: "event", K: "reset"},
 		{Op: "event", K: "custom", V: "ok"}, {Op: "event", K: "custom", V: "reserved-change"}, {Op: "event", K: "custom", V: "invalid-dot"}, {Op: "event", K: "custom", V: "unmarshalable"},
 		{Op: "panic", K: "reserr"}, {Op: "panic", K: "err"}, {Op: "panic", K: "str"}, {Op: "panic", K: "int"}, {Op: "panic", K: "runtime"},
-		{Op: "panic", K: "reserr-baddata"}, {Op: "panic", K: "nil-typed-err"}, {Op: "panic", K: "reserr-nil"},
+		{Op: "panic", K: "reserr-baddata"}, {Op: "panic", K: "nil-typed-err"}, {Op: "panic", K: "reserr-nil"}, {Op: "panic", K: "untyped-nil"},
 	}
 	if rtype != "get" {
 		out = append(out, act{Op: "value", K: "value"}, act{Op: "value", K: "require"})
